@@ -256,6 +256,13 @@ class C17:
                 rec("array2d", lambda: h1(x2, mkb()[0], weights=w2, **kw), s1)
                 rec("array2d_F", lambda: h1(np.asfortranarray(x2), mkb()[0], weights=None if w2 is None else np.asfortranarray(w2), **kw), s1)
                 rec("array2d_T", lambda: h1(x2.T.copy().T, mkb()[0], weights=w2, **kw), s1)
+                if not np.isnan(x).any() and w2 is not None:
+                    # without a NaN mask the weights take another code path: a non-contiguous weight array must still be
+                    # paired with the data element by element (logical order), whatever its memory order
+                    rec("array2d_Fweights_nodropna", lambda: h1(x2, mkb()[0], weights=np.asfortranarray(w2), dropna=False), s1)
+                    rec("array2d_F_nodropna", lambda: h1(np.asfortranarray(x2), mkb()[0], weights=w2, dropna=False), s1)
+                    rec("array2d_Tview_nodropna", lambda: h1(x2.T, mkb()[0], weights=w2.T, dropna=False),
+                        lambda hh, _x=x2, _w=w2: s1(hh))
             ser = pd.Series(x, name=names[0])
             rec("pandas_series", lambda: h1(ser, mkb()[0], weights=ws, **kw), s1)
             rec("pandas_accessor", lambda: ser.physt.h1(mkb()[0], weights=ws, **kw), s1)
